@@ -116,6 +116,7 @@ type Opts struct {
 	MaxDownres int
 	Tag        string
 	NoMerge    bool
+	Admin      bool // also create / rename / delete extra keyvalue instances (delete + rename through the RPC-equivalent API)
 }
 
 type World struct {
@@ -140,7 +141,10 @@ type World struct {
 	NeedSettle bool // set by the last Step when it touched a type with background processing
 	LastOp     OpInfo
 	SnapTypes  map[string]bool // when set, snapshots only read these types (kv lm ann nj roi img)
-	Panics     []string        // recovered-panic responses seen on well-formed requests (C20)
+	admin      bool
+	Extra      map[string]bool // extra keyvalue instances currently alive
+	nextra     int
+	Panics     []string // recovered-panic responses seen on well-formed requests (C20)
 	FiveXX     []string
 	LabelBase  uint64
 }
@@ -158,6 +162,8 @@ func New(w *drv.Worker, r *rand.Rand, o Opts) (*World, error) {
 	}
 	wd := &World{W: w, C: cl, R: r, H: h, Root: h.Root, St: map[string]*nodeState{}, has: map[string]bool{},
 		allLabels: map[uint64]bool{}, allPts: map[[3]int]bool{}, allNJ: map[uint64]bool{}, allKV: map[string]bool{}, nextNJ: 1000}
+	wd.admin = o.Admin
+	wd.Extra = map[string]bool{}
 	types := o.Types
 	if len(types) == 0 {
 		types = []string{"kv", "lm", "ann", "nj", "roi", "img"}
@@ -315,6 +321,11 @@ func (wd *World) Step() (string, error) {
 		u = open[wd.R.Intn(len(open))]
 	}
 	kind := "dag"
+	if wd.admin && wd.R.Intn(12) == 0 {
+		desc, err = wd.adminStep()
+		wd.LastOp = OpInfo{Kind: "dag", Desc: desc}
+		return desc, err
+	}
 	switch {
 	case x < 18 || len(open) == 0:
 		u = ""
@@ -1003,4 +1014,73 @@ func (wd *World) SplitRLE(u string) (uint64, []byte) {
 	var sv uint64
 	fmt.Sscanf(p.Req.URL[strings.LastIndex(p.Req.URL, "/")+1:], "%d", &sv)
 	return sv, p.Req.Body
+}
+
+// adminStep creates, renames or deletes an extra keyvalue instance.  Deletion is asynchronous in the
+// server; its completion signal is the instance leaving the repo's DataInstances.
+func (wd *World) adminStep() (string, error) {
+	var names []string
+	for n := range wd.Extra {
+		names = append(names, n)
+	}
+	sort.Strings(names)
+	wd.Seq++
+	switch x := wd.R.Intn(3); {
+	case x == 0 || len(names) == 0:
+		wd.nextra++
+		name := fmt.Sprintf("x%d", wd.nextra)
+		if err := wd.C.NewInstance(wd.Root, "keyvalue", name, nil); err != nil {
+			if dvc.IsWorkerErr(err) {
+				return "admin create", err
+			}
+			wd.note("instance create refused: %v", err)
+			return "admin create refused", nil
+		}
+		wd.Extra[name] = true
+		for _, u := range wd.open() {
+			wd.W.Post("/api/node/"+u+"/"+name+"/key/k", []byte(name))
+			break
+		}
+		wd.note("create instance %s", name)
+		return "admin create " + name, nil
+	case x == 1:
+		old := names[wd.R.Intn(len(names))]
+		wd.nextra++
+		nn := fmt.Sprintf("y%d", wd.nextra)
+		err := wd.W.API("rpc.data_rename", map[string]string{"uuid": wd.Root, "name": old, "newname": nn}, nil)
+		if err != nil {
+			if _, ok := err.(*drv.APIError); !ok {
+				return "admin rename", err
+			}
+			wd.note("rename refused: %v", err)
+			return "admin rename refused", nil
+		}
+		delete(wd.Extra, old)
+		wd.Extra[nn] = true
+		wd.note("rename instance %s -> %s", old, nn)
+		return "admin rename", nil
+	default:
+		name := names[wd.R.Intn(len(names))]
+		err := wd.W.API("rpc.data_delete", map[string]string{"uuid": wd.Root, "name": name}, nil)
+		if err != nil {
+			if _, ok := err.(*drv.APIError); !ok {
+				return "admin delete", err
+			}
+			wd.note("delete refused: %v", err)
+			return "admin delete refused", nil
+		}
+		for i := 0; i < 400; i++ {
+			ri, err := wd.C.Repo(wd.Root)
+			if err != nil {
+				return "admin delete", err
+			}
+			if _, still := ri.DataInstances[name]; !still {
+				delete(wd.Extra, name)
+				wd.note("delete instance %s", name)
+				return "admin delete " + name, nil
+			}
+			wd.W.Settle()
+		}
+		return "admin delete", fmt.Errorf("instance %s still listed long after its deletion was acknowledged: %w", name, drv.ErrWatchdog)
+	}
 }
